@@ -20,6 +20,9 @@ def rng_for(seed, mode, idx):
     return random.Random(int.from_bytes(h[:8], "big"))
 
 
+CLI_TIMEOUTS = [0]  # runs of the binary that hit their time limit (all checks of this process)
+
+
 def run_cli(args, timeout=20, env_extra=None):
     env = dict(orch.ENV)
     env["RUST_BACKTRACE"] = "0"
@@ -29,6 +32,7 @@ def run_cli(args, timeout=20, env_extra=None):
         p = subprocess.run([CLI] + args, stdout=subprocess.PIPE, stderr=subprocess.PIPE, env=env, timeout=timeout)
         return p.returncode, p.stdout.decode("utf-8", "replace"), p.stderr.decode("utf-8", "replace")
     except subprocess.TimeoutExpired:
+        CLI_TIMEOUTS[0] += 1
         return "timeout", "", ""
 
 
@@ -65,7 +69,16 @@ def count(res, k, n=1):
 def run_cases(fn, seed, mode, n, workdir, jobs=None):
     jobs = jobs or orch.NCPU
 
+    timeouts_at_start = CLI_TIMEOUTS[0]
+
     def one(i):
+        # a tree on which the binary stops terminating would keep every worker waiting for the per-run
+        # limit: after 40 runs that hit it (the cases they belong to are reported) the rest is skipped
+        if CLI_TIMEOUTS[0] - timeouts_at_start >= 40:
+            res = result(i, [], "", [])
+            res["status"] = "skip"
+            res["skip"] = "run cut short after 40 timeouts"
+            return res
         d = os.path.join(workdir, "w%d" % (i % (jobs * 2)), str(i))
         os.makedirs(d, exist_ok=True)
         try:
@@ -373,7 +386,8 @@ def gen_wcnf(r):
         else:
             k = r.choice([0, 1, 1, 1, 2, 2, 3])
             vs = [r.randint(1, n) for _ in range(k)]
-        w = 1 if uniform else r.randint(1, 50)
+        # uniform instances use one weight for all soft clauses: 1 in most cases, otherwise 2, 3 or 7
+        w = [1, 1, 2, 3, 7][(n + top) % 5] if uniform else r.randint(1, 50)
         soft.append((w, [r.choice([-1, 1]) * v for v in vs]))
     if not plain and soft and r.random() < 0.3:
         soft.append(r.choice(soft))  # duplicate soft clause
@@ -529,7 +543,13 @@ def gen_fzn(r, kinds_filter=None):
         elif kind < 0.32:
             v = r.randint(-2, 4)
             m.ints[name] = [v]
-            m.decls.append("var %d..%d: %s :: output_var = %d;" % (v - 1, v + 2, name, v))
+            if v % 2 == 0:
+                # fixed through a parameter identifier
+                m.decls.insert(0, "int: P%s = %d;" % (name, v))
+                m.decls.append("var %d..%d: %s :: output_var = P%s;" % (v - 1, v + 2, name, name))
+                m.classes.add("fzn.fixed_by_parameter")
+            else:
+                m.decls.append("var %d..%d: %s :: output_var = %d;" % (v - 1, v + 2, name, v))
             m.classes.add("fzn.fixed_value")
         else:
             lo = r.randint(-3, 2)
